@@ -423,6 +423,10 @@ def expected_tree(nodes, opts, mode, B, xattr_file_entries=None, extra_implicit=
     dmt = default_mtime(opts)
     duid, dgid, dmode = d.get("uid", 0), d.get("gid", 0), d.get("mode", 0o755)
     fuid, fgid = opts.get("set_uid"), opts.get("set_gid")
+    for v in (fuid, fgid):
+        # owner ids are 32 bit numbers: anything else given on the command line cannot be stored and must not be stored as something else
+        if v is not None and (not isinstance(v, int) or not 0 <= v <= 0xFFFFFFFF):
+            raise Unrepresentable("--set-uid / --set-gid value %r" % (v,))
     if opts.get("all_root"):
         fuid, fgid = 0, 0
     exp = {}
